@@ -14,6 +14,7 @@ import Vlsp.Model.Checker
 import Vlsp.Model.Claim
 import Vlsp.Model.Fetch
 import Vlsp.Model.Txn
+import Vlsp.Model.Migrate
 
 /-! Line-protocol plumbing shared by the driver's op tables. -/
 namespace DriverLib
@@ -128,6 +129,7 @@ def specDiag (eco latest tagres cur : Text) (versions : List Text) : String :=
 def intOfText (t : Text) : Int := (String.ofList t).toInt!
 
 structure DState where
+  shape : Migrate.Shape := Migrate.fresh
   schemaDone : Bool := false
   claim : Claim.Sys := Claim.init {} 0
   db : Db := {}
@@ -193,6 +195,65 @@ def parseJobs (f : List Text) : List Fetch.Job :=
 def sortTexts (xs : List Text) : List Text :=
   (xs.map String.ofList).mergeSort (fun a b => a ≤ b) |>.map String.toList
 
+def shapeStr (s : Migrate.Shape) : String :=
+  s!"pk={tf s.hasPackages} vs={tf s.hasVersions} dt={tf s.hasDistTags} fs={tf s.hasFetchingSince} nf={tf s.hasNotFound} uv={s.userVersion}"
+
+/-- does attempt `a` stop at a statement point before its next statement? -/
+def parksAt (a : Migrate.Attempt) : Bool :=
+  if a.done || a.failed then true
+  else if a.pc ≥ 1 && a.pc ≤ 6 then true
+  else if a.pc == 7 then decide (1 > a.cur)
+  else if a.pc == 8 then decide (2 > a.cur)
+  else if a.pc == 9 then decide (2 > a.cur)
+  else false
+
+/-- execute statements until the next statement point (fuel: at most 12 statements) -/
+def runToPark : Nat → Migrate.Shape → Migrate.Attempt → Migrate.Shape × Migrate.Attempt
+  | 0, s, a => (s, a)
+  | n + 1, s, a =>
+    let (s', a') := Migrate.stepAttempt s a false
+    if parksAt a' then (s', a') else runToPark n s' a'
+
+def advanceAtt (s : Migrate.Shape) (a : Migrate.Attempt) (ok : Bool) : Migrate.Shape × Migrate.Attempt :=
+  if a.done || a.failed then (s, a)
+  else if !ok then (s, { a with failed := true })
+  else runToPark 12 s a
+
+def attStr (a : Migrate.Attempt) : String := if a.done then "ok" else if a.failed then "E:db" else "pending"
+
+def finishAtt : Nat → Migrate.Shape → Migrate.Attempt → Migrate.Shape × Migrate.Attempt
+  | 0, s, a => (s, a)
+  | n + 1, s, a => if a.done || a.failed then (s, a) else let (s', a') := advanceAtt s a true; finishAtt n s' a'
+
+/-- `<npk> (reg name upd fs nf)* <nv> (pidx v)* <nt> (pidx t v)*` → model rows -/
+def loadRows (f : List Text) (hfs hnf hdt : Bool) : Db :=
+  match f with
+  | npk :: rest =>
+    let n := natOfText npk
+    let (pk, rest) := takeN (5 * n) rest
+    let rec pkgs : Nat → List Text → List Pkg
+      | i, reg :: name :: upd :: fs :: nf :: r =>
+        ⟨i + 1, ⟨reg, name⟩, intOfText upd, (if hfs && fs != ['-'] then some (intOfText fs) else none),
+          hnf && nf == ['1']⟩ :: pkgs (i + 1) r
+      | _, _ => []
+    let ps := pkgs 0 pk
+    match rest with
+    | nv :: rest =>
+      let (vs, rest) := takeN (2 * natOfText nv) rest
+      let rec vers : List Text → List (Nat × Text)
+        | p :: v :: r => (natOfText p + 1, v) :: vers r
+        | _ => []
+      match rest with
+      | nt :: rest =>
+        let (ts, _) := takeN (3 * natOfText nt) rest
+        let rec tags : List Text → List (Nat × Text × Text)
+          | p :: t :: v :: r => (natOfText p + 1, t, v) :: tags r
+          | _ => []
+        { pkgs := ps, vers := vers vs, tags := if hdt then tags ts else [], nextId := n + 1 }
+      | [] => { pkgs := ps, vers := vers vs, nextId := n + 1 }
+    | [] => { pkgs := ps, nextId := n + 1 }
+  | [] => {}
+
 /-- the statement points an operation passes, in order, each with the database that a crash / error
     at that point leaves behind; and the result + database when it completes -/
 def crashPoints (st : DState) (op : List Text) : List (String × Db) × String × Db :=
@@ -240,7 +301,27 @@ def cacheStep (st : DState) (op : String) (f : List Text) : Option (DState × St
   match op, f with
   | "c.reset", [ip, interval] =>
     some ({ db := {}, cfg := ⟨intOfText interval, ip == ['T']⟩, now := 0, schemaDone := false }, "ok")
-  | "c.open", [_] => some ({ st with schemaDone := true }, "ok")
+  | "c.open", [_] => some ({ st with schemaDone := true, shape := Migrate.openDb st.shape }, "ok")
+  | "m.make", hfs :: hnf :: hdt :: uv :: rows =>
+    let (a, b, c) := (hfs == ['T'], hnf == ['T'], hdt == ['T'])
+    some ({ st with db := loadRows rows a b c, now := 0, cfg := ⟨1000, true⟩, schemaDone := true,
+                    shape := ⟨true, true, c, a, b, intOfText uv⟩ }, "ok")
+  | "m.fresh", [] => some ({ st with db := {}, now := 0, cfg := ⟨1000, true⟩, schemaDone := false, shape := Migrate.fresh }, "ok")
+  | "m.shape", [] => some (st, shapeStr st.shape)
+  | "m.open2", [moves] =>
+    let (s0, a0) := runToPark 12 st.shape {}
+    let (s0, b0) := runToPark 12 s0 {}
+    let (s1, a1, b1) := moves.foldl (fun (acc : Migrate.Shape × Migrate.Attempt × Migrate.Attempt) ch =>
+      let (s, a, b) := acc
+      if ch == 'a' then let (s', a') := advanceAtt s a true; (s', a', b)
+      else if ch == 'b' then let (s', b') := advanceAtt s b true; (s', a, b')
+      else if ch == 'A' then let (s', a') := advanceAtt s a false; (s', a', b)
+      else if ch == 'B' then let (s', b') := advanceAtt s b false; (s', a, b')
+      else acc) (s0, a0, b0)
+    let (s2, a2) := finishAtt 12 s1 a1
+    let (s3, b2) := finishAtt 12 s2 b1
+    some ({ st with shape := s3, schemaDone := true },
+      s!"A={attStr a1} B={attStr b1} {shapeStr s1} | finally A={attStr a2} B={attStr b2} {shapeStr s3}")
   | "c.close", [_] => some (st, "ok")
   | "c.now", [t] => some ({ st with now := intOfText t }, "ok")
   | "c.replace", _ :: reg :: name :: vs =>
